@@ -14,6 +14,18 @@ def honestFrom (dir : Nat) : Nat → List Bytes → List SByte
 theorem unitBytes_length (dir use len : Nat) : (unitBytes dir use len).length = len := by
   simp [unitBytes]
 
+/-- honest bytes contain no pause mark -/
+theorem pauseAt_unit (dir use len n : Nat) (rest : List SByte) (hn : n = len) :
+    pauseAt n (unitBytes dir use len ++ rest) = none := by
+  subst hn
+  unfold pauseAt
+  rw [List.take_left' (unitBytes_length _ _ _)]
+  rw [List.findIdx?_eq_none_iff]
+  intro x hx
+  simp only [unitBytes, List.mem_map] at hx
+  obtain ⟨i, _, rfl⟩ := hx
+  rfl
+
 theorem readMessage_honest (recs : List Bytes) (dir j : Nat) (p : Bytes) (rest : List SByte)
     (hp : recs[j]? = some p) :
     readMessage recs ⟨dir, 2 * j, false⟩
@@ -37,7 +49,11 @@ theorem readMessage_honest (recs : List Bytes) (dir j : Nat) (p : Bytes) (rest :
     simp [opens, unitLen, hdiv1, hp, hmod1]
   have hwl : ¬ (unitBytes dir (2 * j) hdrLen ++ unitBytes dir (2 * j + 1) (p.length + macSize) ++ rest).length < hdrLen := by
     simp only [List.length_append, hlen0]; omega
-  simp only [readMessage, Bool.false_eq_true, ↓reduceIte, hwl, htake, hopen0, Bool.not_true, hdiv, hp, hdrop]
+  have hpa : pauseAt hdrLen (unitBytes dir (2 * j) hdrLen ++ unitBytes dir (2 * j + 1) (p.length + macSize) ++ rest) = none := by
+    rw [List.append_assoc]; exact pauseAt_unit _ _ _ _ _ rfl
+  have hpb : pauseAt (p.length + macSize) (unitBytes dir (2 * j + 1) (p.length + macSize) ++ rest) = none :=
+    pauseAt_unit _ _ _ _ _ rfl
+  simp only [readMessage, Bool.false_eq_true, ↓reduceIte, hpa, hwl, htake, hopen0, Bool.not_true, hdiv, hp, hdrop, hpb]
   have hbl : ¬ (unitBytes dir (2 * j + 1) (p.length + macSize) ++ rest).length < p.length + macSize := by
     simp only [List.length_append, hlen1]; omega
   rw [if_neg hbl, List.take_left' hlen1, hopen1, List.drop_left' hlen1]
